@@ -46,7 +46,7 @@ class Check(DiffCheck):
     id = 'C09'
     coq_dirs = ['Base', 'C09', 'C04', 'Sched']
     coq_targets = ['C09/C09_Proofs.vo', 'C09/C09_BufTimeProofs.vo', 'C09/C09_UnbufRelease.vo', 'C09/C09_Witness2.vo',
-                   'C09/C09_Release.vo', 'C09/C09_E2.vo', 'C09/C09_E3.vo']
+                   'C09/C09_Release.vo', 'C09/C09_E2.vo', 'C09/C09_E3.vo', 'C09/C09_E3U.vo']
     needs_libphoton = True
     properties_v = 'C09/C09_Properties.v'
     extract_v = 'C09/C09_Extract.v'
@@ -349,6 +349,7 @@ class Check(DiffCheck):
         mexe, mlog = build_model_runner('C09e3', 'C09/C09_E3_Extract.v', 'ocaml/C09_e3_run.ml', 'C09_e3_model')
         if not mexe:
             return [dict(kind='proof', message='E3 model runner does not build: ' + mlog[-800:], case=None)], {}
+        self.e3_mexe = mexe
         iexe, ilog = cxx_build('C09e3', ['harness/C09/e3_chan.cpp'], libphoton=True)
         if not iexe:
             return [dict(kind='build', message='E3 harness for go.h does not build: ' + ilog[-1200:], case=None)], {}
@@ -394,6 +395,250 @@ class Check(DiffCheck):
                          e3_rule='3 F11 witnesses + random scripts (2-4 participants, capacities 1-3) x random bursty model-level schedules, '
                                  'expanded by the model to atomic-step schedules of the real code')
 
+
+    # ---- engine E3, UNBUFFERED channel: the real go.h between OS threads, photon::mutex / condition_variable replaced by
+    # instrumented stand-ins (harness/C09/e3_uchan.cpp); model side = `ustep` of C09_Unbuf.v driven by the same schedule
+    # (coq/C09/C09_E3U.v).  Ties the unbuffered model to the code on MULTI-vCPU interleavings (the direct harness and E2 are
+    # single-vCPU: the mutex is never held across a switch there).
+    # scenarios enumerated COMPLETELY (every path of the model's transition system = every interleaving at the granularity
+    # "one section under m_unbuf_mutex, cut at every m_closed access / cv wait"); (scripts, quick?)
+    E3U_FULL = [('S | R | r', 1), ('S | R | R', 1), ('S | r | r', 1), ('s | R | r', 1), ('s | R | R', 1),
+                ('S | S | R', 1), ('S | s | R', 1), ('s | s | R', 1), ('S | s | r', 1),
+                ('S | R | C', 1), ('R | R | C', 1), ('S | S | C', 1), ('s | R | C', 1), ('S | r | C', 1), ('R | r | C', 0),
+                ('T100 | R | A', 1), ('T100 | V100 | A', 1), ('S | V100 | A', 1), ('T300 | V100 | A A', 1), ('T100 | V300 | A A', 0),
+                ('T100 | V100 | A A', 0), ('S | R', 1), ('s | R', 1), ('S | r', 1), ('S | C', 1), ('R | C', 1), ('T0 | R', 1), ('S | V0', 1),
+                ('S S | R | r', 0), ('S S | R | R', 0), ('S | s | R R', 0), ('S | s | R r', 0), ('S | R R | C', 0), ('S | S | R R', 0)]
+    # bigger scenarios: every enabled PREFIX of the given length (completed lowest-thread-first), sampled
+    E3U_PREFIX = [('S | S | R | R', 7), ('S | S | R | r', 7), ('S | R | r | C', 7), ('S | s | R | R', 7), ('S S | R r | r', 9),
+                  ('T100 | S | R | A', 8), ('S | V100 | r | A', 8), ('T100 | S | R | R | A', 7)]
+    # coarse interleavings of 4-5 participants: every word of L bursts, a burst = one participant runs until it blocks / returns
+    # (or: the timer of a timed participant fires); words with the same expansion are run once.  (scripts, L quick, L thorough)
+    E3U_BURST = [('T100 | S | R | R | A', 7, 8), ('S | S | R | R', 7, 9), ('S | s | R | r', 7, 9), ('S | R | r | C', 7, 9),
+                 ('T100 | S | V100 | R | A', 6, 8), ('S S | s | R R | r', 6, 8)]
+    # seeded C09_3 (try_recv tests m_handoff_ready before taking the mutex): receiver asleep, sender deposits, try_recv
+    # starts (sees the slot full), the receiver takes the value, try_recv gets the mutex
+    E3U_WITNESSES = ['Ux | R | S | r | 000111112002', 'Ux | S | R | r | 111000002112']
+
+    def gen_e3u(self, rng, tier, mexe, tmp):
+        quick = tier == 'quick'
+        D = '0123456789abcdefghijklmnopqrstuvwxyz'
+        reqs, meta = [], []
+        for sc, q in self.E3U_FULL:
+            if quick and not q: continue
+            reqs.append('UxN 60 %d | %s |' % (4000 if quick else 40000, sc)); meta.append((sc, None))
+        for sc, d in self.E3U_PREFIX:
+            reqs.append('UxN %d 200000 | %s |' % (d if quick else d + 2, sc)); meta.append((sc, 350 if quick else 6000))
+        eo = run_cases(mexe, reqs, tmp, 'e3uenum', timeout=600)
+        cs, nfull, npre, trunc = list(self.E3U_WITNESSES), 0, 0, []
+        for (sc, cap), o in zip(meta, eo):
+            o = (o or '').strip()
+            if not o.startswith('ENUM'):
+                raise RuntimeError('E3U enumeration failed on %s: %s' % (sc, o[:200]))
+            ws = ['' if w == '-' else w for w in o.split()[1:]]
+            if cap is None:
+                nfull += len(ws)
+                if len(ws) >= (4000 if quick else 40000): trunc.append(sc)      # enumeration cut at the limit: not complete
+            else:
+                if len(ws) > cap: ws = rng.sample(ws, cap)
+                npre += len(ws)
+            cs += ['Ux | %s | %s' % (sc, w) for w in ws]
+        nburst = 0
+        for sc, lq, lt in self.E3U_BURST:
+            scr = [x.split() for x in sc.split('|')]; n = len(scr)
+            letters = [D[p] * 9 for p in range(n)] + [D[p + n] for p in range(n) if any(o[0] in 'TV' for o in scr[p])]
+            clock = [D[p] * 9 for p in range(n) if 'A' in scr[p]]
+            words = [w for w in itertools.product(letters, repeat=(lq if quick else lt))
+                     if all(a != b or a in clock for a, b in zip(w, w[1:]))]
+            bc = ['Ux | %s | %s' % (sc, ''.join(w)) for w in words]
+            bo = run_cases(mexe, bc, tmp, 'e3uburst', timeout=600)
+            uniq = {}
+            for c, o in zip(bc, bo):
+                uniq.setdefault((o or '').split(' ')[0], c)
+            nburst += len(uniq)
+            cs += list(uniq.values())
+        # random scripts x random bursty schedules, 2-4 participants (+ a clock participant for the timed ones)
+        nrand = 1200 if quick else 30000
+        for _ in range(nrand):
+            k = rng.randint(2, 4)
+            timed = rng.random() < 0.4
+            scripts = []
+            for p in range(k):
+                role = rng.random()
+                sp = ['S', 'S', 's'] + (['T100', 'T300', 'T0'] if timed else [])
+                rp = ['R', 'R', 'r'] + (['V100', 'V300', 'V0'] if timed else [])
+                pool = sp if role < 0.4 else (rp if role < 0.8 else ['S', 'R', 'C', 's', 'r'])
+                scripts.append(' '.join(rng.choice(pool) for _ in range(rng.randint(1, 3))))
+            n = k
+            if timed:
+                scripts.append(' '.join('A' for _ in range(rng.randint(1, 3)))); n = k + 1
+            L = rng.randint(0, 40)
+            ms = ''
+            while len(ms) < L:
+                t = rng.randrange(n)
+                if timed and rng.random() < 0.15: ms += D[t + n]            # the timer of t fires (skipped unless enabled)
+                else: ms += D[t] * rng.randint(1, 6)
+            cs.append('Ux | %s | %s' % (' | '.join(scripts), ms[:L]))
+        cs = list(dict.fromkeys(cs))
+        return cs, dict(e3u_complete_enumeration_cases=nfull, e3u_prefix_cases=npre, e3u_burst_cases=nburst, e3u_random_cases=nrand, e3u_enumeration_truncated=trunc)
+
+    @staticmethod
+    def e3u_oracle(case, line):
+        """property C09 evaluated on the implementation's outcome alone (case = harness case 'U <bound> | scripts | sched')"""
+        if line.startswith('CRASH') or line == '':
+            sig = {'CRASH(-11)': 'SIGSEGV: e.g. a value moved out of an EMPTY hand-off slot (null m_handoff_ptr)', 'CRASH(-6)': 'SIGABRT', 'CRASH(-8)': 'SIGFPE'}
+            why = next((v for k, v in sig.items() if line.startswith(k)), line[:80] or 'no output')
+            return 'the implementation crashed (%s)' % why
+        m = re.match(r'^res=(\S*) blocked=(\S+) slot=(-?\d+) closed=(\d) sw=(-?\d+) rw=(-?\d+) seq=(\d+) scv=(\S+) rcv=(\S+) mtx=(\S+)$', line)
+        if not m:
+            return None                       # E3ERROR / malformed: left to the correspondence comparison
+        secs = case.split('|'); scripts = [x.split() for x in secs[1:-1]]; n = len(scripts)
+        res = [[int(x) for x in r.split(',') if x != ''] for r in m.group(1).split('|')]
+        if len(res) != n: return 'malformed result line'
+        blocked = [] if m.group(2) == '-' else [int(x) for x in m.group(2).split(',')]
+        slot = int(m.group(3)); closed = m.group(4) == '1'
+        close_done = closed                   # m_closed is only ever set, by close()
+        ticks = sum(1 for p in range(n) for o in scripts[p][:len(res[p])] if o == 'A')
+        started, sent_true, sent_false, kind_of, recvd = set(), [], [], {}, []
+        for p in range(n):
+            if len(res[p]) > len(scripts[p]): return 'participant %d produced more results than ops' % p
+            if len(res[p]) < len(scripts[p]) and p not in blocked: return 'participant %d stopped early' % p
+            k = 0
+            for i, o in enumerate(scripts[p]):
+                if o[0] in 'STs':
+                    v = 1000 * p + k; k += 1; kind_of[v] = o
+                    if i < len(res[p]):
+                        started.add(v); (sent_true if res[p][i] == 1 else sent_false).append(v)
+                    elif i == len(res[p]) and p in blocked: started.add(v)
+            last = {}
+            for i, r in enumerate(res[p]):
+                o = scripts[p][i]
+                if o[0] in 'RVr':
+                    if r >= 0:
+                        recvd.append(r)
+                        s = r // 1000
+                        if s in last and r <= last[s]: return 'receiver %d got values of sender %d out of order' % (p, s)
+                        last[s] = r
+                    elif r != -1: return 'receiver %d returned the value %d that nobody sent' % (p, r)
+                    # false only on close() or timeout
+                    if r < 0 and o[0] == 'R' and not close_done: return 'recv of participant %d returned false, no close(), no timeout' % p
+                    if r < 0 and o[0] == 'V' and not close_done and int(o[1:]) != 0 and ticks * 200 < int(o[1:]):
+                        return 'timed recv of participant %d returned false before its timeout, no close()' % p
+                if o[0] == 'S' and r != 1 and not close_done: return 'send of participant %d returned false, no close(), no timeout' % p
+                if o[0] == 'T' and r != 1 and not close_done and int(o[1:]) != 0 and ticks * 200 < int(o[1:]):
+                    return 'timed send of participant %d returned false before its timeout, no close()' % p
+        for v in recvd:
+            if v not in started: return 'value %d was received but never sent' % v
+            if recvd.count(v) > 1: return 'value %d delivered %d times' % (v, recvd.count(v))
+        if slot != -1 and (slot not in started or slot in recvd):
+            return 'the hand-off slot holds %d: %s' % (slot, 'already delivered' if slot in recvd else 'never sent')
+        for v in sent_true:
+            if v in recvd: continue
+            if kind_of[v] == 's' and slot == v: continue          # try_send only deposits
+            return '%s of value %d returned true but the value is never delivered (lost)' % ('try_send' if kind_of[v] == 's' else 'send', v)
+        for v in sent_false:
+            if v in recvd and not closed: return 'send of value %d returned false (timeout / no receiver) but the value was delivered' % v
+            if v == slot and not closed: return 'send of value %d returned false but the value is in the hand-off slot' % v
+        # release: nobody blocked at the end (nobody else can move, expired timers have fired) while a partner / value / close() exists
+        bops = {p: scripts[p][len(res[p])] for p in blocked if len(res[p]) < len(scripts[p])}
+        for p, o in bops.items():
+            if o[0] not in 'STRV': return 'participant %d is blocked in the non-blocking operation %s' % (p, o)
+            if closed: return 'participant %d (%s) still blocked on a closed channel' % (p, o)
+        bs = [p for p, o in bops.items() if o[0] in 'ST']; br = [p for p, o in bops.items() if o[0] in 'RV']
+        if br and slot != -1: return 'receiver %d blocked while value %d sits in the hand-off slot' % (br[0], slot)
+        if bs and br: return 'sender %d and receiver %d both blocked at the end' % (bs[0], br[0])
+        for p in bs:
+            v = 1000 * p + sum(1 for o in scripts[p][:len(res[p])] if o[0] in 'STs')
+            if v in recvd: return 'sender %d still blocked although its value %d was delivered' % (p, v)
+        if m.group(10) != '-': return 'the channel mutex is still held (by %s) at the end' % m.group(10)
+        if int(m.group(5)) != len(bs) or int(m.group(6)) != len(br):
+            return 'waiter counters sw=%s rw=%s do not match the blocked senders %s / receivers %s' % (m.group(5), m.group(6), bs, br)
+        return None
+
+    def e3u_step(self, ctx):
+        if not self.fx:
+            print('[C09] note: E3 replay of the unbuffered channel skipped (the model adapter C09_E3U.v follows go.h WITH the F10 repair)')
+            return [], dict(e3u_skipped='go.h without m_handoff_seq')
+        mexe = getattr(self, 'e3_mexe', None)
+        if not mexe:
+            mexe, mlog = build_model_runner('C09e3', 'C09/C09_E3_Extract.v', 'ocaml/C09_e3_run.ml', 'C09_e3_model')
+            if not mexe:
+                return [dict(kind='proof', message='E3 model runner does not build: ' + mlog[-800:], case=None)], {}
+        iexe, ilog = cxx_build('C09e3u', ['harness/C09/e3_uchan.cpp'], libphoton=True)
+        if not iexe:
+            return [dict(kind='build', message='E3 harness for the unbuffered go.h path does not build: ' + ilog[-1200:], case=None)], {}
+        cases, cov = self.gen_e3u(ctx['rng'], ctx['tier'], mexe, ctx['tmp'])
+        mo = run_cases(mexe, cases, ctx['tmp'], 'e3umodel', timeout=600)
+        hc, exp = [], []
+        for c, o in zip(cases, mo):
+            o = (o or '').strip()
+            if ' ' not in o or o.startswith('BADCASE'):
+                return [dict(kind='correspondence', message='E3 model runner failed on a case: %s' % o[:200], case=c)], {}
+            sched, summ = o.split(' ', 1)
+            if sched == '-': sched = ''
+            secs = c.split('|')
+            hc.append('U %d |%s| %s' % (len(sched) + 10, '|'.join(secs[1:-1]), sched)); exp.append(summ)
+        io = run_cases(iexe, hc, ctx['tmp'], 'e3uimpl', timeout=1200, env=self.impl_env())
+        ovio, cvio, agree, nblocked, redo = [], [], 0, 0, []
+        D = '0123456789abcdefghijklmnopqrstuvwxyz'
+        def better(v, h): return not v or len(h) < len(v[0]['case'])
+        for c, h, e, i in zip(cases, hc, exp, io):
+            i = (i or '').strip()
+            if re.match(r'^CRASH\((timeout|97)\)', i):
+                continue                   # the machine was too slow for the E3 watchdog: not a verdict
+            msched = c.split('|')[-1].strip() or '-'
+            if i == e:
+                # lock-step agreement up to the model's quiescent end state: the outcome is final, evaluate the property on it
+                agree += 1
+                if 'blocked=-' not in i: nblocked += 1
+                o = self.e3u_oracle(h, i)
+                if o and better(ovio, h):
+                    ovio = [dict(kind='oracle', message='E3 (unbuffered channel, OS threads; model-level schedule %s): %s' % (msched, o), case=h, model_out=e, impl_out=i)]
+                continue
+            if better(cvio, h):
+                cvio = [dict(kind='correspondence', message='E3 (unbuffered channel, lock-step replay between OS threads): model and implementation disagree',
+                             case=h, model_out=e, impl_out=i)]
+            if i.startswith('CRASH'):
+                if better(ovio, h):
+                    ovio = [dict(kind='oracle', message='E3 (unbuffered channel, OS threads; model-level schedule %s): %s' % (msched, self.e3u_oracle(h, i)),
+                                 case=h, model_out=e, impl_out=i)]
+            elif len(redo) < 400:
+                redo.append((c, h, e))
+        if redo:
+            # the implementation left the model's path: its run was cut by the step bound, not finished.  Replay the same
+            # schedule followed by a fair tail (every participant in turn, with and without the timer flavor) so that the
+            # implementation's OWN final outcome is judged by the oracle
+            rc = []
+            for c, h, e in redo:
+                secs = h.split('|'); n = len(secs) - 2; sched = secs[-1].strip()
+                sched += ''.join(D[p] + D[p + n] for p in range(n)) * 60
+                rc.append('U %d |%s| %s' % (len(sched) + 10, '|'.join(secs[1:-1]), sched))
+            ro = run_cases(iexe, rc, ctx['tmp'], 'e3uredo', timeout=1200, env=self.impl_env())
+            best = None
+            for (c, h, e), r, i in zip(redo, rc, ro):
+                i = (i or '').strip()
+                if re.match(r'^CRASH\((timeout|97)\)', i): continue
+                o = self.e3u_oracle(r, i)
+                if o and (best is None or len(r) < len(best[1])): best = (c, r, e, i, o, h)
+            if best and better(ovio, best[1]):
+                c, r, e, i, o, h = best
+                # shortest fair tail that gives the same final outcome (readability of the reported schedule only)
+                secs = h.split('|'); n = len(secs) - 2
+                alts = []
+                for k in (1, 2, 3, 5, 8, 13, 21, 34):
+                    sched = secs[-1].strip() + ''.join(D[p] + D[p + n] for p in range(n)) * k
+                    alts.append('U %d |%s| %s' % (len(sched) + 2 * n, '|'.join(secs[1:-1]), sched))
+                ao = run_cases(iexe, alts, ctx['tmp'], 'e3ushrink', timeout=600, env=self.impl_env())
+                for a, x in zip(alts, ao):
+                    if (x or '').strip() == i: r = a; break
+                ovio = [dict(kind='oracle', message='E3 (unbuffered channel, OS threads; model-level schedule %s, then every participant in turn until '
+                             'nobody can move): %s' % (c.split('|')[-1].strip() or '-', o), case=r, model_out=e, impl_out=i)]
+        cov.update(e3u_cases=len(cases), e3u_outcomes_agreeing=agree, e3u_cases_ending_blocked=nblocked,
+                   e3u_rule='unbuffered go::channel between OS threads (mutex/condition_variable stand-ins with every operation a point): '
+                            'COMPLETE enumeration of all model-level interleavings of the 2-3 participant scenarios (1 sender + 2 receivers incl. '
+                            'try_recv, 2 senders incl. try_send + 1 receiver, close vs waiters, timed ops with a clock participant), all enabled '
+                            'prefixes (sampled) and all run-until-blocked burst orders for the 4-6 participant ones, random bursty schedules with timer firings')
+        return ovio + cvio, cov
+
     def extra(self, ctx):
         if not getattr(self, 'fx', has_fix()):
             print('KNOWN-FINDING: property=C09 F10 unbuffered channel: a second sender overwrites the hand-off slot '
@@ -428,7 +673,9 @@ class Check(DiffCheck):
             agree += 1
         e3v, e3cov = self.e3_step(ctx)
         vio += e3v
-        self.extra_coverage = dict(e3=e3cov, e2_cases=len(cases), e2_traces_agreeing=agree, e2_skipped_watchdog=skipped,
+        e3uv, e3ucov = self.e3u_step(ctx)
+        vio += e3uv
+        self.extra_coverage = dict(e3=e3cov, e3u=e3ucov, e2_cases=len(cases), e2_traces_agreeing=agree, e2_skipped_watchdog=skipped,
                                    e2_rule='random timed programs (2-4 threads, capacities 0-3, Timeout in {never,0,100..500}, usleep, close) + F10 witness with timeouts')
         return vio
 
